@@ -2636,6 +2636,11 @@ static std::string runPath(Engine &E, const RunCfg &rc, const std::vector<Engine
         }
     } catch (PathEnd &p) {
         end = p;
+        if (end.kind == "inconclusive" && end.msg.compare(0, 11, "stack depth") == 0 && !E.knownCtx.empty()) {
+            // unbounded recursion inside a region the harness marked as a known finding (natively: stack overflow)
+            E.knownHit.push_back(E.knownCtx);
+            end = PathEnd{"ok", "known finding: unbounded recursion"};
+        }
         if (end.kind == "inconclusive" && getenv("SYMX_WHERE")) {
             end.msg += " @";
             for (size_t i = E.stack.size(); i-- > 0 && i + 6 > E.stack.size();)
